@@ -236,20 +236,33 @@ func RunScript(kind, script string, vars []*Term, timeout time.Duration, path st
 	outb, _ := cmd.CombinedOutput()
 	out := string(outb)
 	r := FileResult{Res: "unknown", Dur: time.Since(t0), Solver: kind, Out: out}
-	lines := strings.SplitN(strings.TrimSpace(out), "\n", 2)
-	if len(lines) > 0 {
-		first := strings.TrimSpace(lines[0])
-		if first == "unsat" && !strings.Contains(out, "(error") {
-			r.Res = "unsat"
-		} else if first == "sat" {
-			r.Res = "sat"
-			if len(lines) > 1 {
-				r.Model = parseGetValue(lines[1])
+	// find the verdict line; any (error before it makes the run inconclusive
+	var pre, post []string
+	verdict := ""
+	for _, l := range strings.Split(out, "\n") {
+		t := strings.TrimSpace(l)
+		if verdict == "" {
+			if t == "sat" || t == "unsat" || t == "unknown" {
+				verdict = t
+				continue
 			}
-			// errors after sat (e.g. in get-value) make the model unusable but the verdict stands
-			if strings.Contains(lines[0], "(error") {
-				r.Res = "unknown"
-			}
+			pre = append(pre, l)
+		} else {
+			post = append(post, l)
+		}
+	}
+	if strings.Contains(strings.Join(pre, "\n"), "(error") {
+		return r
+	}
+	switch verdict {
+	case "unsat":
+		// errors after an unsat verdict can only come from the trailing (get-value): irrelevant
+		r.Res = "unsat"
+	case "sat":
+		r.Res = "sat"
+		rest := strings.Join(post, "\n")
+		if !strings.Contains(rest, "(error") {
+			r.Model = parseGetValue(rest)
 		}
 	}
 	return r
